@@ -320,7 +320,9 @@ def gen_program(rng, max_calls=8):
         sessions.append(cur)
     return {'sessions': sessions, 'version': rng.choice([4712, 4713]),
             # the file is always opened for appending, also the first time, when it does not exist yet (a logger's habit)
-            'first_mode': 'a' if rng.random() < 0.1 else 'w'}
+            'first_mode': 'a' if rng.random() < 0.1 else 'w',
+            # with-block, explicit open() and close(), or (writers on the caller's streams) neither
+            'lifecycle': rng.choice(['with'] * 7 + ['open-close', 'open-close', 'bare'])}
 
 
 # ------------------------------------------------------------------------------ materialisation
